@@ -87,6 +87,14 @@ fn variants(i: usize, n: usize, f: i32) -> Vec<DSched> {
         }
         v.push(DSched { steps: vec![fd(i, AMPLE, Z_NO_FLUSH), fd(0, AMPLE, f)], tail_room: AMPLE });
     }
+    // the flush requested with no new input right after a call with another flush kind (Z_BLOCK leaves up to 7 bits
+    // behind that only this call brings out), also when that earlier call was starved of output
+    for g in [Z_BLOCK, Z_PARTIAL_FLUSH, Z_SYNC_FLUSH, Z_FULL_FLUSH] {
+        if g != f {
+            v.push(DSched { steps: vec![fd(i, AMPLE, g), fd(0, AMPLE, f)], tail_room: AMPLE });
+            v.push(DSched { steps: vec![fd(i, 1, g), fd(0, AMPLE, f)], tail_room: 5 });
+        }
+    }
     v
 }
 
